@@ -189,3 +189,295 @@ Proof.
 Qed.
 
 End Arith.
+
+(* ---------- masked_bits = the class bits of the identifier ---------- *)
+Lemma or_masks : forall m s, m + s < 2 ^ 64 ->
+  or64 (minishard_mask m) (shard_mask m s) = N.ones (N.min (m + s) 64).
+Proof.
+  intros m s Hms. unfold or64, minishard_mask, shard_mask, and64.
+  assert (Ha : add64 m s = m + s)
+    by (unfold add64; apply N.mod_small; rewrite two64_eq; assumption).
+  rewrite Ha, !mask_low_ones. rewrite not64_ones by (apply N.le_min_r).
+  apply N.bits_inj. intro i.
+  rewrite N.lor_spec, N.land_spec, N.ldiff_spec, !testbit_ones.
+  destruct (N.ltb_spec i (N.min m 64)); destruct (N.ltb_spec i (N.min (m + s) 64));
+    destruct (N.ltb_spec i 64); simpl; try reflexivity; lia.
+Qed.
+
+Lemma testbit_mul_pow2 : forall a k i,
+  N.testbit (a * 2 ^ k) i = if i <? k then false else N.testbit a (i - k).
+Proof.
+  intros a k i. destruct (N.ltb_spec i k) as [H|H].
+  - apply N.mul_pow2_bits_low. exact H.
+  - apply N.mul_pow2_bits_high. exact H.
+Qed.
+
+Theorem masked_of_is_mbits : forall sp id,
+  id < 2 ^ 64 -> sp_m sp + sp_s sp < 2 ^ 64 -> masked_of sp id = mbits sp id.
+Proof.
+  intros sp id Hid Hms. unfold masked_of, mbits. rewrite or_masks by assumption.
+  unfold shl64, and64.
+  destruct (N.leb_spec 64 (sp_p sp)) as [Hp|Hp].
+  - rewrite N.land_0_l.
+    pose proof (pow2_ge_two64 _ Hp) as Hge.
+    rewrite (N.div_small id) by lia.
+    rewrite N.mod_0_l by apply pow2_nz. reflexivity.
+  - apply N.bits_inj. intro i.
+    rewrite N.land_spec, two64_eq.
+    rewrite !testbit_mul_pow2.
+    destruct (N.lt_ge_cases i 64) as [Hi|Hi].
+    + rewrite N.mod_pow2_bits_low by exact Hi. rewrite testbit_mul_pow2.
+      destruct (N.ltb_spec i (sp_p sp)) as [Hip|Hip]; [reflexivity|].
+      rewrite testbit_ones.
+      destruct (N.lt_ge_cases (i - sp_p sp) (sp_s sp + sp_m sp)) as [Hj|Hj].
+      * rewrite N.mod_pow2_bits_low by exact Hj. rewrite N.div_pow2_bits.
+        replace (i - sp_p sp + sp_p sp) with i by lia.
+        replace (i - sp_p sp <? N.min (sp_m sp + sp_s sp) 64) with true
+          by (symmetry; apply N.ltb_lt; lia).
+        reflexivity.
+      * rewrite N.mod_pow2_bits_high by exact Hj.
+        replace (i - sp_p sp <? N.min (sp_m sp + sp_s sp) 64) with false
+          by (symmetry; apply N.ltb_ge; lia).
+        reflexivity.
+    + rewrite N.mod_pow2_bits_high by exact Hi. simpl.
+      destruct (N.ltb_spec i (sp_p sp)) as [Hip|Hip]; [reflexivity|].
+      destruct (N.lt_ge_cases (i - sp_p sp) (sp_s sp + sp_m sp)) as [Hj|Hj].
+      * rewrite N.mod_pow2_bits_low by exact Hj. rewrite N.div_pow2_bits.
+        replace (i - sp_p sp + sp_p sp) with i by lia.
+        symmetry. apply (testbit_high id 64 i Hid Hi).
+      * rewrite N.mod_pow2_bits_high by exact Hj. reflexivity.
+Qed.
+
+(* ================================================================== *)
+(* 2. association lists                                                *)
+(* ================================================================== *)
+
+Lemma alookup_aremove : forall {V} (k k' : N) (l : list (N * V)),
+  alookup k' (aremove k l) = if k =? k' then None else alookup k' l.
+Proof.
+  intros V k k' l. induction l as [|[k0 v] r IH]; simpl.
+  - destruct (k =? k'); reflexivity.
+  - destruct (N.eqb_spec k0 k) as [E|E].
+    + subst k0. rewrite IH. destruct (N.eqb_spec k k'); reflexivity.
+    + simpl. rewrite IH. destruct (N.eqb_spec k0 k') as [E'|E'].
+      * subst k0. destruct (N.eqb_spec k k'); [congruence | reflexivity].
+      * reflexivity.
+Qed.
+
+Lemma alookup_aset : forall {V} (k k' : N) (v : V) (l : list (N * V)),
+  alookup k' (aset k v l) = if k =? k' then Some v else alookup k' l.
+Proof.
+  intros V k k' v l. unfold aset. simpl. rewrite alookup_aremove.
+  destruct (k =? k'); reflexivity.
+Qed.
+
+Lemma aremove_absent : forall {V} (k : N) (l : list (N * V)),
+  alookup k l = None -> aremove k l = l.
+Proof.
+  intros V k l. induction l as [|[k0 v] r IH]; simpl; [reflexivity|].
+  destruct (N.eqb_spec k0 k); [discriminate|]. intro H. rewrite IH by exact H. reflexivity.
+Qed.
+
+Lemma length_aremove_le : forall {V} (k : N) (l : list (N * V)),
+  (length (aremove k l) <= length l)%nat.
+Proof.
+  intros V k l. induction l as [|[k0 v] r IH]; simpl; [lia|].
+  destruct (k0 =? k); simpl; lia.
+Qed.
+
+Lemma length_aremove_lt : forall {V} (k : N) (l : list (N * V)) v,
+  alookup k l = Some v -> (length (aremove k l) < length l)%nat.
+Proof.
+  intros V k l. induction l as [|[k0 v0] r IH]; simpl; [discriminate|].
+  intros v. destruct (N.eqb_spec k0 k).
+  - intros _. pose proof (length_aremove_le k r). lia.
+  - intro H. specialize (IH _ H). simpl. lia.
+Qed.
+
+Lemma in_akeys_alookup : forall {V} (k : N) (l : list (N * V)),
+  In k (akeys l) <-> alookup k l <> None.
+Proof.
+  intros V k l. induction l as [|[k0 v] r IH]; simpl.
+  - split; [tauto | congruence].
+  - destruct (N.eqb_spec k0 k) as [E|E].
+    + split; [discriminate | intros _; left; exact E].
+    + rewrite <- IH. split; [intros [H|H]; [contradiction | exact H] | intro H; right; exact H].
+Qed.
+
+Lemma maxN_ge : forall l x, In x l -> x <= maxN l.
+Proof.
+  induction l as [|y r IH]; simpl; [tauto|].
+  intros x [->|H]; [lia | specialize (IH x H); lia].
+Qed.
+
+Lemma with_pend_same : forall st, with_pend st (ms_pend st) = st.
+Proof. destruct st; reflexivity. Qed.
+
+Lemma sub64_small : forall a b, b <= a -> a < 2 ^ 64 -> sub64 a b = a - b.
+Proof.
+  intros a b Hb Ha. unfold sub64. rewrite two64_eq.
+  rewrite (N.mod_small b) by lia.
+  replace (a + 2 ^ 64 - b) with ((a - b) + 1 * 2 ^ 64) by lia.
+  rewrite N.mod_add by (apply pow2_nz). apply N.mod_small. lia.
+Qed.
+
+(* ================================================================== *)
+(* 3. the reorder-buffer invariant                                     *)
+(* ================================================================== *)
+
+Lemma flat_map_ext_in' : forall {A B} (f g : A -> list B) l,
+  (forall a, In a l -> f a = g a) -> flat_map f l = flat_map g l.
+Proof.
+  intros A B f g l. induction l as [|x r IH]; simpl; intro H; [reflexivity|].
+  rewrite (H x) by (left; reflexivity). rewrite IH by (intros a Ha; apply H; right; exact Ha).
+  reflexivity.
+Qed.
+
+Lemma seq_snoc : forall a, seq 0 (S a) = seq 0 a ++ [a].
+Proof. intro a. rewrite seq_S. reflexivity. Qed.
+
+Section Buffer.
+Variable sp : sparams.
+Variable enc : bytes -> bytes.
+Variable K : N.
+Notation P := (2 ^ sp_p sp).
+Notation M := (2 ^ (sp_s sp + sp_m sp)).
+Notation mb := (K * 2 ^ sp_p sp).
+Hypothesis HK : K < M.
+Hypothesis HB : cbits sp < 2 ^ 64.
+
+Definition in_class (id : N) : Prop :=
+  id < 2 ^ 64 /\ mbits sp id = mb /\ rank sp id + 1 < 2 ^ 64.
+Definition sm_ok (sm : store_map) : Prop := forall id, In id (akeys sm) -> in_class id.
+
+Definition idn (i : nat) : N := mk sp mb (N.of_nat i).
+
+Definition top_ok (sm : store_map) (a : nat) : Prop :=
+  a = O \/ exists id, In id (akeys sm) /\ N.of_nat a <= rank sp id + 1.
+
+Record Inv (sm : store_map) (a : nat) (st : mini) : Prop := {
+  inv_mask : ms_mask st = Some mb;
+  inv_off : ms_off st = 0;
+  inv_app : ms_app st = N.of_nat a;
+  inv_last : ms_last st = match a with O => 0 | S j => idn j end;
+  inv_hdr : ms_hdr st = chdr sp enc sm mb 0 a;
+  inv_data : ms_data st = cdata sp enc sm mb a;
+  inv_pend : forall id, alookup id (ms_pend st) =
+               if rank sp id <? N.of_nat a then None else option_map enc (alookup id sm);
+  inv_top : top_ok sm a }.
+
+Lemma Hms : sp_m sp + sp_s sp < 2 ^ 64.
+Proof. unfold cbits in HB. lia. Qed.
+
+Lemma rank_idn : forall i, rank sp (idn i) = N.of_nat i.
+Proof. intro i. unfold idn. apply rank_mk. exact HK. Qed.
+
+Lemma idn_mono : forall i j, (i < j)%nat -> idn i < idn j.
+Proof. intros i j H. unfold idn. apply mk_mono; [exact HK | lia]. Qed.
+
+Lemma idn_inj : forall i j, idn i = idn j -> i = j.
+Proof. intros i j H. apply mk_inj in H; [lia | exact HK]. Qed.
+
+Lemma class_idn : forall id, in_class id -> id = idn (N.to_nat (rank sp id)).
+Proof.
+  intros id (_ & Hc & _). unfold idn. rewrite N2Nat.id. apply in_class_mk. exact Hc.
+Qed.
+
+Lemma class_bound : forall id a, in_class id -> N.of_nat a <= rank sp id ->
+  idn a <= id /\ idn a < 2 ^ 64 /\ N.of_nat a + 1 < 2 ^ 64.
+Proof.
+  intros id a Hc Hr. pose proof (class_idn id Hc) as E. destruct Hc as (Hlt & _ & Hr1).
+  assert (idn a <= id).
+  { rewrite E. unfold idn. apply mk_mono_le; [exact HK | lia]. }
+  repeat split; lia.
+Qed.
+
+Lemma next_is : forall sm a st, Inv sm a st -> idn a < 2 ^ 64 -> ms_next sp st = idn a.
+Proof.
+  intros sm a st I Hlt. unfold ms_next, mask_val. rewrite (inv_mask _ _ _ I), (inv_app _ _ _ I).
+  apply next_cmc_is_mk; assumption.
+Qed.
+
+Lemma pend_key : forall sm a st k c, Inv sm a st -> sm_ok sm ->
+  alookup k (ms_pend st) = Some c ->
+  in_class k /\ N.of_nat a <= rank sp k /\ exists b, alookup k sm = Some b /\ c = enc b.
+Proof.
+  intros sm a st k c I Hok Hl. rewrite (inv_pend _ _ _ I) in Hl.
+  destruct (N.ltb_spec (rank sp k) (N.of_nat a)) as [H|H]; [discriminate|].
+  destruct (alookup k sm) as [b|] eqn:Eb; [|discriminate].
+  simpl in Hl. injection Hl as <-.
+  assert (Hin : In k (akeys sm)) by (apply in_akeys_alookup; congruence).
+  repeat split; try (apply Hok; exact Hin); try lia. exists b. split; reflexivity.
+Qed.
+
+(* canonical lists: extension by one entry, dependence on the map *)
+Lemma chdr_S : forall sm off a,
+  chdr sp enc sm mb off (S a) =
+  chdr sp enc sm mb off a ++ [cdelta sp mb a; if (a =? 0)%nat then off else 0; lenN (cpay sp enc sm mb a)].
+Proof. intros. unfold chdr. rewrite seq_snoc, flat_map_app. simpl. reflexivity. Qed.
+
+Lemma cdata_S : forall sm a,
+  cdata sp enc sm mb (S a) = cdata sp enc sm mb a ++ cpay sp enc sm mb a.
+Proof. intros. unfold cdata. rewrite seq_snoc, flat_map_app. simpl. rewrite app_nil_r. reflexivity. Qed.
+
+Lemma cpay_agree : forall sm sm' i,
+  alookup (idn i) sm' = alookup (idn i) sm -> cpay sp enc sm' mb i = cpay sp enc sm mb i.
+Proof. intros sm sm' i H. unfold cpay. fold (idn i). rewrite H. reflexivity. Qed.
+
+Lemma canon_agree : forall sm sm' off a,
+  (forall i, (i < a)%nat -> alookup (idn i) sm' = alookup (idn i) sm) ->
+  chdr sp enc sm' mb off a = chdr sp enc sm mb off a /\
+  cdata sp enc sm' mb a = cdata sp enc sm mb a.
+Proof.
+  intros sm sm' off a H. unfold chdr, cdata. split.
+  - apply flat_map_ext_in'. intros i Hi. apply in_seq in Hi.
+    rewrite (cpay_agree sm sm' i) by (apply H; lia). reflexivity.
+  - apply flat_map_ext_in'. intros i Hi. apply in_seq in Hi.
+    apply cpay_agree, H. lia.
+Qed.
+
+(* one append at the expected identifier keeps the invariant *)
+Lemma append_inv : forall sm sm' a st,
+  Inv sm a st -> sm_ok sm' ->
+  idn a < 2 ^ 64 -> N.of_nat a + 1 < 2 ^ 64 ->
+  (forall id, id <> idn a -> alookup id sm' = alookup id sm) ->
+  (exists id, In id (akeys sm') /\ N.of_nat a <= rank sp id) ->
+  Inv sm' (S a)
+      (ms_append (with_pend st (aremove (idn a) (ms_pend st))) (cpay sp enc sm' mb a) (idn a)).
+Proof.
+  intros sm sm' a st I Hok Hlt Ha Hag Htop.
+  assert (Hagi : forall i, (i < a)%nat -> alookup (idn i) sm' = alookup (idn i) sm).
+  { intros i Hi. apply Hag. intro E. apply idn_inj in E. lia. }
+  destruct (canon_agree sm sm' 0 a Hagi) as [Eh Ed].
+  constructor; cbn [ms_mask ms_off ms_app ms_last ms_hdr ms_data ms_pend ms_append with_pend].
+  - apply (inv_mask _ _ _ I).
+  - apply (inv_off _ _ _ I).
+  - rewrite (inv_app _ _ _ I). unfold add64. rewrite two64_eq, N.mod_small by lia. lia.
+  - reflexivity.
+  - rewrite chdr_S, Eh, (inv_hdr _ _ _ I), (inv_last _ _ _ I), (inv_app _ _ _ I), (inv_off _ _ _ I).
+    f_equal. f_equal; [|f_equal].
+    + destruct a as [|j]; unfold cdelta.
+      * rewrite sub64_small by (try exact Hlt; lia). unfold idn. change (N.of_nat 0) with 0.
+        apply N.sub_0_r.
+      * fold (idn j). fold (idn (S j)). apply sub64_small; [|exact Hlt].
+        apply N.lt_le_incl, idn_mono. lia.
+    + destruct (N.of_nat a =? 0); destruct (a =? 0)%nat; reflexivity.
+  - rewrite cdata_S, Ed, (inv_data _ _ _ I). reflexivity.
+  - intro id. rewrite alookup_aremove, (inv_pend _ _ _ I).
+    destruct (N.eqb_spec (idn a) id) as [E|E].
+    + subst id. rewrite rank_idn.
+      destruct (N.ltb_spec (N.of_nat a) (N.of_nat (S a))); [reflexivity | lia].
+    + rewrite (Hag id) by congruence.
+      destruct (N.ltb_spec (rank sp id) (N.of_nat a)) as [H1|H1];
+        destruct (N.ltb_spec (rank sp id) (N.of_nat (S a))) as [H2|H2]; try reflexivity; try lia.
+      (* rank exactly a but another identifier: not in the map *)
+      destruct (alookup id sm) as [b|] eqn:Eb; [|reflexivity]. exfalso.
+      assert (Hin : In id (akeys sm')).
+      { apply in_akeys_alookup. rewrite (Hag id) by congruence. congruence. }
+      pose proof (class_idn id (Hok id Hin)) as Eid.
+      assert (rank sp id = N.of_nat a) by lia.
+      apply E. rewrite Eid. f_equal. lia.
+  - right. destruct Htop as (id & Hin & Hr). exists id. split; [exact Hin | lia].
+Qed.
+
+End Buffer.
